@@ -105,17 +105,13 @@ def brightest_pixel(img, threshold, **kwargs):
 
     nPxls = int(round(threshold*img.shape[-1]*img.shape[-2]))
 
-    if len(img.shape)==2:
-        pxlValue = numpy.sort(img.flatten())[-nPxls]
-        img-=pxlValue
-        img = img.clip(0, img.max())
-
-    elif len(img.shape)==3:
-        pxlValues = numpy.sort(
-                        img.reshape(img.shape[0], img.shape[-1]*img.shape[-2])
-                        )[:,-nPxls]
-        img[:]  = (img.T - pxlValues).T
-        img = img.clip(0, img.max(), out=img)
+    # nPxls-th brightest value of each image (any number of leading stack axes);
+    # work on a copy so that the caller's array is left untouched
+    pxlValues = numpy.sort(
+                    img.reshape(img.shape[:-2] + (img.shape[-1]*img.shape[-2],))
+                    )[..., -nPxls]
+    img = img - numpy.asarray(pxlValues)[..., None, None]
+    img = img.clip(0, None)
 
     return centre_of_gravity(img)
 
